@@ -57,6 +57,11 @@ chk("C10", "llsym", "translation_validation",
     "Trusted: llsym's IR semantics and its models of memcpy/memset/strlen/strcpy/strncpy/malloc/free/new/delete and std::string members; clang -O0 IR as the code under test; the stub library's contract (listed in the evidence). cap = 4 quick / 8 thorough. The Fortran side of the same rules and F_CFI descriptors are outside.",
     "bounded symbolic execution of the LLVM IR of generated code (own engine llsym over z3 bit-vectors/arrays) against a reference model; native sanitizer replay", "DESIGN.md 3/C10")
 
+chk("C02", "llsym", "translation_validation",
+    "Every extern \"C\" function Shroud writes for three libraries (a C++ library with namespace, classes with overloaded/const/static methods, constructors with default arguments, destructor, enum/bool/native scalar/pointer/reference arguments, functions returning class instances owned by caller or library, overloads and default-argument arities; a C++ and a C string library) is compiled to LLVM IR and executed symbolically against a nondeterministic stub of the wrapped library: every scalar argument full-width symbolic, buffers symbolic, capsules with arbitrary idtor. z3 decides per path that the callee symbol (name, scope, arity, native parameter types, const-ness), 'this', each argument as received, the return value and output arguments as seen by the C caller equal the reference model of DESIGN.md appendix A.2/A.1; the set of C entry points is compared with the callable signatures (default-argument arities) of each declaration.",
+    "Trusted: llsym IR semantics and models; the stub library's contract; demangling by llvm-cxxfilt. Class instances are opaque objects. Outside: class arguments/results by value, std::vector, struct arguments, templates, function pointers, exceptions, allocation failure. Native replay exists for the string libraries; for the class library a violation is the symbolic result only (stated in the output).",
+    "bounded symbolic execution of the LLVM IR of generated code (llsym) against a reference model derived from the declaration", "DESIGN.md 3/C02")
+
 NA = {
  "C01": "generated Fortran run-time behaviour: no Fortran front end yields anything a solver can execute; C-side kernels covered under C02/C06/C10",
  "C04": "finite structural comparison of two emitted texts with a Fortran processor's interoperability rules as oracle; nothing symbolic to decide",
